@@ -1,6 +1,6 @@
 # Semantics of the x86-64 AT&T inline-asm subset present in the repository (scalar add/sub/mul).
 import z3, re
-from .interp import is_c, tobv, mask, binop, icmp, Unsupported, I, FV, Half, POISON
+from .interp import is_c, tobv, mask, binop, icmp, Unsupported, Violation, I, FV, Half, POISON
 
 class X86:
     def run(s, it, ins, args):
@@ -87,6 +87,19 @@ class X86:
                 else:
                     pr = z3.ZeroExt(64, tobv(a, 64)) * z3.ZeroExt(64, tobv(b, 64)); lo = z3.Extract(63, 0, pr); hi = z3.Extract(127, 64, pr)
                 wr('%rax', lo); wr('%rdx', hi); CF[0] = None
+            elif mn in ('div', 'divq'):
+                # unsigned divide rdx:rax by the operand: quotient -> rax, remainder -> rdx; #DE (SIGFPE) if the divisor is 0 or the quotient needs more than 64 bits
+                if guard is not None: raise Unsupported('guarded div')
+                lo_ = rd('%rax'); hi_ = rd('%rdx'); d = rd(ops[0])
+                if is_c(lo_) and is_c(hi_) and is_c(d):
+                    if d == 0 or hi_ >= d: raise Violation('sigfpe', 'divq traps: divisor %#x, dividend high word %#x' % (d, hi_))
+                    N = (hi_ << 64) | lo_; wr('%rax', N // d); wr('%rdx', N % d)
+                else:
+                    D = tobv(d, 64); H = tobv(hi_, 64); L = tobv(lo_, 64)
+                    if it.branch(z3.Or(D == 0, z3.UGE(H, D))): raise Violation('sigfpe', 'divq traps (divide error) for some operands: quotient does not fit 64 bits or divisor is zero')
+                    N = z3.Concat(H, L); D128 = z3.ZeroExt(64, D)
+                    wr('%rax', z3.Extract(63, 0, z3.UDiv(N, D128))); wr('%rdx', z3.Extract(63, 0, z3.URem(N, D128)))
+                CF[0] = None
             elif mn in ('rol', 'rolq'):
                 n = rd(ops[0]); v = rd(ops[1])
                 if not is_c(n): raise Unsupported('variable rotate')
